@@ -348,3 +348,42 @@ Example C04_delete_sem_end_to_end_nonvacuous :
   erase (delete_spec doc1 (e2e_gathered "a[-1]" doc1))
   = DMap [ (PStr "a", DSeq [DLeaf (PInt 1); DSeq []; DLeaf (PInt 1)]); (PStr "b", DLeaf (PInt 5)) ].
 Proof. vm_compute. repeat split. Qed.
+
+(* ---- the Array slice that selects nothing (fix f20b613; Proofs/C03slice.v) ----
+   delete_nodes("a[2:1]") on {a: [1, 2, 3]} removed a[2]: the empty virtual list of the slice was gathered with the
+   sliced Array and the START of the slice as its coordinates, and _delete_nodes took that for an element.  Now
+   _leaf_node_coords leaves it out (Compose.ce_coord: the coordinate CList [], no leaf): nothing is deleted. *)
+From YP Require Import Compose C03slice.
+
+Theorem C04_empty_slice_deletes_nothing :
+  forall cs1 cs2 pc nk d, delete_nodes (cs1 ++ CList [] pc nk :: cs2) d = delete_nodes (cs1 ++ cs2) d.
+Proof. exact delete_empty_slice_skipped. Qed.
+Print Assumptions C04_empty_slice_deletes_nothing.
+
+Theorem C04_empty_slice_end_to_end :
+  forall lit re_search nstr vstr kw_handler creator p d items,
+    ce_required_raw lit re_search nstr vstr kw_handler creator p d = (items, Done) ->
+    forallb empty_slice_itemb items = true ->
+    ce_delete lit re_search nstr vstr kw_handler creator p d = CsDone d.
+Proof. exact delete_empty_slices_e2e. Qed.
+Print Assumptions C04_empty_slice_end_to_end.
+
+(* on doc1 = {a: [1, [], 1, x], b: 5}: a[3:1] (was: a[3] deleted), a[7:9]; the non-empty slice a[0:2] still deletes *)
+Definition e2e_slice_del (text : string) : Prop :=
+  match prepare 20 text with
+  | Ok p =>
+      let g := ce_required_raw e2e_lit e2e_re (fun _ => "") (fun _ => "") e2e_kw e2e_cr p doc1 in
+      snd g = Done /\ List.length (fst g) = 1 /\ forallb empty_slice_itemb (fst g) = true /\
+      ce_delete e2e_lit e2e_re (fun _ => "") (fun _ => "") e2e_kw e2e_cr p doc1 = CsDone doc1
+  | _ => False
+  end.
+Example C04_empty_slice_repaired :
+  e2e_slice_del "a[3:1]" /\ e2e_slice_del "a[7:9]" /\
+  match prepare 20 "a[0:2]" with
+  | Ok p => match ce_delete e2e_lit e2e_re (fun _ => "") (fun _ => "") e2e_kw e2e_cr p doc1 with
+            | CsDone d => erase d = DMap [ (PStr "a", DSeq [DLeaf (PInt 1); DLeaf (PStr "x")]); (PStr "b", DLeaf (PInt 5)) ]
+            | _ => False
+            end
+  | _ => False
+  end.
+Proof. vm_compute. repeat split. Qed.
